@@ -10,7 +10,8 @@
    count for block h is at least uint32(float64(threshold) * 0.685) (0.585
    for certificate votes), the threshold being the one a delivered message's
    stake look-up or the voter's own step view supplied. *)
-From VF.C03 Require Import Model ProofsA ProofsB ProofsC ProofsD ProofsE.
+From VF.C03 Require Import Model ProofsA ProofsB ProofsC ProofsD ProofsE Bridge.
+From VF.gen Require Import C03Locks.
 Local Open Scope N_scope.
 
 (* 1. a precommit goes out only on a counted prevote quorum for exactly that
@@ -214,6 +215,54 @@ Example C03_nonvacuous_restart :
   = [(V.Prevote, V.enc 7 1); (V.Precommit, V.enc 7 1); (V.Prevote, V.enc 7 2)].
 Proof. vm_compute. reflexivity. Qed.
 Print Assumptions C03_nonvacuous_restart.
+
+(* 7. schedules.  The harness also requests a second event (a context change or
+   another vote) on another goroutine while a vote's authentication callbacks
+   run.  [During m o2] stands for that; its meaning is its linearisation
+   [Msg m; o2] ([flatten]) - justified by the lock discipline read off voter.go on
+   every run: processVoteMsg and updateContext hold v.lock from their first
+   statement to their return, and no method that can run without the lock writes
+   voter state.  Releasing the lock between the round/index guard and the count
+   breaks the first obligation below. *)
+Theorem C03_processVoteMsg_holds_lock : locked_entry c03_voter_methods n_processVoteMsg = true.
+Proof. exact processVoteMsg_holds_lock. Qed.
+Print Assumptions C03_processVoteMsg_holds_lock.
+
+Theorem C03_updateContext_holds_lock : locked_entry c03_voter_methods n_updateContext = true.
+Proof. exact updateContext_holds_lock. Qed.
+Print Assumptions C03_updateContext_holds_lock.
+
+Theorem C03_lock_discipline :
+  forall e, In e c03_voter_methods -> exposed c03_voter_methods e = true -> touches (e_writes e) = false.
+Proof. exact unlocked_methods_write_nothing. Qed.
+Print Assumptions C03_lock_discipline.
+
+(* every theorem above is about arbitrary op lists, hence about the linearisation
+   of any schedule; spelled out for two of them *)
+Theorem C03_schedule_precommit_needs_quorum : forall E (sch : list sop) o v' ev c r i h p n,
+  step E (run_state E (flatten sch)) o = (v', ev, c) ->
+  In (ESend V.Precommit r i h p n) ev ->
+  r = round_of v' /\ i = v_idx v' /\ Quorum E (flatten sch ++ [o]) r i V.Prevote h.
+Proof. exact (fun E sch => precommit_needs_quorum E (flatten sch)). Qed.
+Print Assumptions C03_schedule_precommit_needs_quorum.
+
+Theorem C03_schedule_one_vote : forall E (sch : list sop) k p,
+  (V.count_votes k p (sends (all_events E init_voter (flatten sch))) <= V.limit k)%nat.
+Proof. exact (fun E sch => voter_one_vote E (flatten sch)). Qed.
+Print Assumptions C03_schedule_one_vote.
+
+(* non-vacuity: three members with one seat each, threshold 5 (quorum 3); the
+   round-index change to (10,2) is requested while the third prevote is being
+   authenticated: the vote is judged in (10,1), the precommit is for (10,1) *)
+Example C03_nonvacuous_schedule :
+  let E := mkEnv 0 [(10, 1, V.Precommit, (1, 5, Chamber)); (10, 2, V.Precommit, (1, 5, Chamber))] true false true true false
+                 [(1, 10, 1, V.Prevote, 1); (2, 10, 1, V.Prevote, 1); (3, 10, 1, V.Prevote, 1)] in
+  let pv a := mkMsg Same V.Prevote 10 1 1 1 a true 1 false (Some (5, Chamber)) 1 in
+  let sch := [P (Cache 1 true); P (Ctx 10 1 2 false None); P (Msg (pv 1)); P (Msg (pv 2));
+              During (pv 3) (Ctx 10 2 0 false None)] in
+  sends (all_events E init_voter (flatten sch)) = [(V.Precommit, V.enc 10 1)].
+Proof. vm_compute. reflexivity. Qed.
+Print Assumptions C03_nonvacuous_schedule.
 
 (* ---- non-vacuity ------------------------------------------------------------------ *)
 (* a history in which prevotes reach the quorum exactly (2 of threshold 4), the
